@@ -197,6 +197,13 @@ def rule_inflight_order(ctx):
     if len(rets) != 1:
         raise Inconclusive("expected exactly one `in_flight.retain(closure that removes matches)`, found %d" % len(rets))
     rm = get_fn(facts, "nucleo", rets[0][2])
+    # the removal must shift the tail (Vec::remove): the match list is in index order at this point (0..last_snapshot
+    # for an empty pattern, and later removals address positions relative to it); swap_remove moves the LAST match
+    # into the hole, which both destroys the order and makes the next `index - offset` removal hit the wrong entry
+    for bi, t in rm.calls(lambda t: callee(t).endswith("::swap_remove")):
+        ctx.violation("%s|in_flight.remove|swap" % rm.path, site(rm, bi),
+                      "placeholders of in-flight items are taken out of the match list with swap_remove: the last match is moved into the hole, so the list is no longer in index order "
+                      "and the next positional removal (`index - offset`) removes a published item while the unpublished one stays in the list (then read through get_unchecked)")
     # the removal is positional with a running offset => needs ascending order
     positional = False
     for bi, t in rm.calls(lambda t: callee(t).endswith("Vec::<T, A>::remove")):
